@@ -149,3 +149,40 @@ package vegeta
 //@     invariant rangeindex == -1 ==> len(*bs) == 0
 //@     invariant fresh(*bs) || (ptr(*bs) == old(ptr(*bs)) && off(*bs) == old(off(*bs)) && cap(*bs) == old(cap(*bs)))
 //@     decreases bn(value) - rangeindex
+
+// Renderers: required only what the API guarantees for every histogram a user can have:
+// nothing added yet (Counts == nil) or len(Counts) == len(Buckets).
+//@ func (Buckets).Nth
+//@   property C12
+//@   returns (left, right)
+//@   requires [in-range] 0 <= i && i < len(bs)
+//@   ensures [left-is-lower-bound] left == durstr(bs[i])
+//@   ensures [right-is-next-bound] i < len(bs)-1 ==> right == durstr(bs[i+1])
+//@   ensures [last-is-unbounded] i >= len(bs)-1 ==> right == "+Inf"
+
+//@ func (*Histogram).MarshalJSON
+//@   property C12
+//@   returns (data, err)
+//@   requires [non-nil] h != nil
+//@   requires [counts-shape] len(h.Counts) == len(h.Buckets) || len(h.Counts) == 0
+//@   modifies nothing
+//@   ghost items int
+//@   at call fmt.Fprintf: assert [one-item-per-bucket-in-order] items == i && i < len(h.Buckets) ;
+//@        assert [item-shows-bound-and-count] len(arg2) == 2 && arg2[0] == boxof(h.Buckets[i]) && arg2[1] == boxof(len(h.Counts) == 0 ? 0 : h.Counts[i], "uint64") ;
+//@        ghost items = items + 1
+//@   ensures [all-buckets-rendered] err == nil ==> items == len(h.Buckets)
+//@   loop 1
+//@     invariant -1 <= rangeindex && rangeindex < len(h.Buckets) && items == rangeindex + 1
+//@     decreases len(h.Buckets) - rangeindex
+
+//@ func NewHistogramReporter$1
+//@   property C12
+//@   requires [non-nil] h != nil
+//@   requires [counts-shape] len(h.Counts) == len(h.Buckets) || len(h.Counts) == 0
+//@   modifies nothing
+//@   ghost rows int
+//@   at call fmt.Fprintf x2: ghost rows = rows + 1
+//@   before call strings.Repeat: assume [float-ratio-non-negative] arg1 >= 0
+//@   loop 1
+//@     invariant -1 <= rangeindex && rangeindex < len(h.Counts)
+//@     decreases len(h.Counts) - rangeindex
